@@ -1,3 +1,30 @@
-From Coq Require Import List. Require Import M_Write.
-Theorem placeholder_C06 : True. Proof. exact I. Qed.
-Print Assumptions placeholder_C06.
+(* C06 - a written NodeSet denotes exactly the requested namespace's part of the graph.
+   Full statement: for the document d = write_doc g U inc, read through its own namespace table, the declared nodes are
+   exactly g's nodes in U (each once, with attributes and value) and the declared references are exactly g's references with
+   an endpoint in U (inc = true) / those minus the dropped ones (inc = false).
+   C06_partial: proved below are the reference-filter rule (what inc = false drops, exactly), that nothing is dropped with
+   inc = true, and the error for an unknown namespace; the node/reference placement part of the statement is decided by the
+   correspondence run (model document = lxml reading of the written text) and by the independent-reader oracle. *)
+From Coq Require Import String Ascii List Bool Arith NArith ZArith.
+Require Import PyStr PyInt Sexp Xml M_C09 M_C08 Ns Table M_Parse M_Write T_Write.
+Import ListNotations.
+Open Scope char_scope.
+
+Theorem C06_refs_all : forall p w kz, wp_inc w = true -> use_refs p w kz = Ok (p_refs p).
+Proof. exact use_refs_all. Qed.
+Theorem C06_refs_filtered : forall p w kz refs, wp_inc w = false -> use_refs p w kz = Ok refs ->
+  exists hmr htd, reftype_by_name (lit "HasModellingRule") (p_nodes p) = Ok hmr /\ reftype_by_name (lit "HasTypeDefinition") (p_nodes p) = Ok htd /\
+  exists f, refs = filter f (p_refs p) /\
+  forall t, f t = false <-> (~ (exists r, In r (p_nodes p) /\ nr_nodeid r = snd (fst t) /\ nid_ns (nr_nodeid r) = kz) /\ snd t <> hmr /\ snd t <> htd).
+Proof. exact use_refs_filtered. Qed.
+Theorem C06_unknown_namespace : forall p w, str_index (wp_uri w) (p_namespaces p) = None -> write_doc p w = Err EValue.
+Proof. exact write_doc_unknown_namespace. Qed.
+Theorem C06_header : forall p w d, write_doc p w = Ok d ->
+  exists u1 rest, d_uris d = Some (u1 :: rest) /\
+  (exists attrs req, d_models d = Some [{| me_attrs := (lit "ModelUri", u1) :: attrs; me_required := req |}]) /\ d_aliases d = Some [].
+Proof. exact write_doc_header. Qed.
+
+Print Assumptions C06_refs_all.
+Print Assumptions C06_refs_filtered.
+Print Assumptions C06_unknown_namespace.
+Print Assumptions C06_header.
